@@ -9,7 +9,7 @@ CONSTANTS Methods, Statuses, CLSyms, TESyms, MaxCL
 \* Content-Length symbols -> abstract value; the harness owns symbol -> octets
 CLVal(sym) == CASE sym = "0" -> 0 [] sym = "3" -> 3 [] sym = "03" -> 3 [] sym = "5" -> 5 [] sym = "8" -> 8
                 [] sym = "max64" -> Huge
-                [] sym \in {"neg", "empty", "alpha", "over64", "hex", "float"} -> -1
+                [] sym \in {"neg", "empty", "alpha", "over64", "hex", "float", "list-differ", "list-junk"} -> -1
 \* Transfer-Encoding symbols -> token sequence (lower-cased)
 TEVal(sym) == CASE sym = "none" -> <<>>
                 [] sym \in {"chunked", "CHUNKED", "Chunked"} -> <<"chunked">>
